@@ -86,6 +86,12 @@ def programs(tier: str):
         yield {"variant": variant, "limit": 1, "expiration": None, "L": 4, "attrs": True}
         yield {"variant": variant, "limit": 2, "expiration": 2, "L": 4, "attrs": True}
     yield from fix_programs(tier)
+    # long histories: warm-up cycles x exhaustive continuations
+    for variant in ("sync", "async", "msync", "masync"):
+        for limit, expiration in ((1, 2), (2, 2), (3, 2)) if tier == "quick" else ((1, 2), (2, 2), (3, 2), (4, 2), (2, 5), (2, None), (4, None)):
+            if tier == "quick" and variant in ("msync", "masync") and limit == 3:
+                continue
+            yield {"variant": variant, "limit": limit, "expiration": expiration, "deep": True, "deadline_s": 3000, "reps": [9, 20] if tier == "quick" else [9, 20, 41], "suffix": 3 if tier == "quick" else 4}
 
 
 def fix_programs(tier: str):
@@ -108,14 +114,14 @@ def fix_programs(tier: str):
 
 
 def explore_config(tier: str, program) -> dict:
-    if program.get("fix"):
+    if program.get("fix") or program.get("deep"):
         return {"split_depth": 0}
     return {"split_depth": 2}
 
 
 def _ops(program) -> list[tuple]:
     ops: list[tuple] = []
-    if program.get("fix"):
+    if program.get("fix") or program.get("deep"):
         # fixpoint search: a lean alphabet (three ==-equal keys or two receivers x two keys, one
         # keyword form, both clock steps) - the state space must close
         if program["variant"] in ("sync", "async"):
@@ -416,7 +422,18 @@ def execute_fix(program) -> Result:
     return Result(outcome, r["states"] > 3, r["violations"], obs, steps=r["transitions"], capped=r["capped"], xstates=r["states"], xinfo=obs)
 
 
+def execute_deep(program) -> Result:
+    """warm-up cycles repeated n times, then every continuation of <= 3 operations"""
+    from hv import xstate
+
+    r = xstate.deep_probe(lambda: Run(program), cycle_len=2, reps=tuple(program.get("reps", (9, 20))), suffix=program.get("suffix", 3))
+    obs = {k: v for k, v in r.items() if k != "violations"}
+    return Result(f"deep/{program['variant']}", True, r["violations"], obs, steps=r["operations"])
+
+
 def execute(program, ch: Chooser) -> Result:
+    if program.get("deep"):
+        return execute_deep(program)
     if program.get("fix"):
         return execute_fix(program)
     L = program["L"]
